@@ -32,7 +32,7 @@ QuickCfgs == {cf \in AllCfgs : \/ (cf.sasl /\ ~cf.sasl2 /\ ~cf.legacy)
                                \/ (~cf.sasl /\ ~cf.sasl2 /\ cf.legacy)
                                \/ (cf.sasl /\ cf.sasl2 /\ cf.legacy)}
 
-\* exhaustive check of the quick tier: every TLS mode x {SASL only, everything enabled}
-\* (ClientStreamFull.cfg, thorough tier, checks all 24)
-McQuickCfgs == {cf \in AllCfgs : (cf.sasl /\ ~cf.sasl2 /\ ~cf.legacy) \/ (cf.sasl /\ cf.sasl2 /\ cf.legacy)}
+\* exhaustive check of the quick tier: every TLS mode with every authentication method enabled
+\* (the richest machine; ClientStreamFull.cfg, thorough tier, checks all 24 configurations)
+McQuickCfgs == {cf \in AllCfgs : cf.sasl /\ cf.sasl2 /\ cf.legacy}
 =============================================================================
